@@ -16,6 +16,7 @@ structure DState where
   cw : CWState := {}
   reg : RegState := {}
   life : LifeState := {}
+  metaDead : Bool := false
 
 def stepLine (st : DState) (line : String) : DState × String :=
   match (line.trimAscii.toString.splitOn " ").filter (· ≠ "") with
@@ -38,7 +39,10 @@ def stepLine (st : DState) (line : String) : DState × String :=
             | none =>
               match lifeCmd st.life cmd args with
               | some (l, out) => ({ st with life := l }, out)
-              | none => (st, "bad-op")
+              | none =>
+                match metaCmd st.metaDead cmd args with
+                | some (d, out) => ({ st with metaDead := d }, out)
+                | none => (st, "bad-op")
 
 partial def loop (h : IO.FS.Stream) (out : IO.FS.Stream) (st : DState) : IO Unit := do
   let line ← h.getLine
